@@ -312,6 +312,13 @@ def vecStep (d : DState) (line : String) : DState × String :=
       match parseInts q, k.toNat?, parseStrategy strat, os.toNat?, parseFilter f with
       | some q, some k, some s, some os, some f => (d, showOut q (searchCollFiltered d.st c q k f s os))
       | _, _, _, _, _ => bad
+  -- the same as a function of the key list `scan` the Auto estimate saw (not observable on the real
+  -- engine: the store scan iterates a fresh HashSet per call; used by hand and by replays)
+  | ["csearchf_scan", c, q, k, strat, os, f, scan] =>
+      match parseInts q, k.toNat?, parseStrategy strat, os.toNat?, parseFilter f with
+      | some q, some k, some s, some os, some f =>
+        (d, showOut q (searchCollFilteredOn sampleCap (parseKeys scan) d.st c q k f s os))
+      | _, _, _, _, _ => bad
   | ["bits", v] => match parseNats v with
       | some v =>
         let r := mkRepr bitsOps v
